@@ -63,7 +63,8 @@ class SQLiteValue(Value):
         if isinstance(value, datetime.time):
             return self.quote_str(value.isoformat())
         if isinstance(value, datetime.timedelta):
-            return repr(value.total_seconds() / (24 * 60 * 60))
+            # the same arithmetic as SQLiteTimedeltaConverter.py2sql: the constant must denote the float that is stored
+            return repr(value.days + (value.seconds + value.microseconds / 1000000.0) / 86400.0)
         return Value.__str__(self)
 
 class SQLiteBuilder(SQLBuilder):
